@@ -56,6 +56,15 @@ func (e *Engine) VerifyFunc(key string) (res *FnResult) {
 		res.Err = "contract target has no body: " + key
 		return
 	}
+	if ct != nil && ct.Opaque {
+		// assumed contract: only its structural obligations are checked
+		if _, ok := ct.Attrs["deterministic"]; ok {
+			d := e.deterministic(fn)
+			d.obl = &Obligation{Name: d.Name, Props: ct.Props, Kind: "prove", vc: NewVC()}
+			res.Decided = append(res.Decided, d)
+		}
+		return
+	}
 	c := e.newCtx(fn, ct)
 	activeVC = c.vc
 	res.Ctx = c
@@ -138,10 +147,24 @@ func (e *Engine) VerifyFunc(key string) (res *FnResult) {
 		tmp := &State{pc: Or(retPCs...)}
 		cv := c.addObl("vacuity", "return-reachable", nil, tmp, TFalse, nil)
 		cv.Kind = "cover"
+		// each return on its own: an unreachable return usually means contradictory
+		// assumptions on that path (reported as a note, see judge)
+		if len(fr.rets) > 1 {
+			for _, pcT := range retPCs {
+				t2 := &State{pc: pcT}
+				cr := c.addObl("vacuity", "each-return", nil, t2, TFalse, nil)
+				cr.Kind = "cover"
+			}
+		}
 	}
 	c.emitFrameObligations(st)
 	c.emitGuardObligations()
 	if ct != nil {
+		if _, ok := ct.Attrs["deterministic"]; ok {
+			d := e.deterministic(fn)
+			d.obl = &Obligation{Name: d.Name, Props: c.props, Kind: "prove", vc: c.vc}
+			res.Decided = append(res.Decided, d)
+		}
 		if nr, ok := ct.Attrs["noreach"]; ok {
 			res.Decided = append(res.Decided, e.noReach(fn, strings.Split(nr, ","))...)
 			for _, d := range res.Decided {
